@@ -263,3 +263,51 @@ func VerifC01_k40m0() { c01(40, 0, false) }
 func VerifC01_k80m0() { c01(80, 0, false) }
 
 func VerifC01_k12m0() { c01(12, 0, false) }
+
+// VerifC01_TwoBuilds: a filter must implement ITS OWN policy whatever was built before in
+// the same process: build (allow A, trace T), then a second policy over the same names with
+// a symbolic split between allow and trace, and validate the second program.
+func VerifC01_TwoBuilds() {
+	const n = 3
+	names := []string{"s0", "s1", "s2"}
+	nums := make([]uint32, n)
+	tab := map[string]int{}
+	for i := 0; i < n; i++ {
+		nums[i] = sym.U32("sysno")
+		sym.Assume(nums[i] < x32Bit)
+		tab[names[i]] = int(nums[i])
+	}
+	sym.Assume(nums[0] != nums[1] && nums[0] != nums[2] && nums[1] != nums[2])
+	info := &arch.Info{Name: "x86_64", ID: arch.X86_64.ID, SyscallNames: tab, SeccompMask: 0}
+	sym.Intercept("github.com/elastic/go-seccomp-bpf/arch.GetInfo", func(string) (*arch.Info, error) { return info, nil })
+	def := Action(sym.U32("default"))
+	split1 := sym.Choose("split1", n+1)
+	split2 := sym.Choose("split2", n+1)
+	b1 := Builder{Allow: names[:split1], Trace: names[split1:], Default: def}
+	if _, err := b1.Build(); err != nil {
+		sym.Assert(false, "first policy must assemble")
+		return
+	}
+	b2 := Builder{Allow: names[:split2], Trace: names[split2:], Default: def}
+	f, err := b2.Build()
+	sym.Assert(err == nil, "second policy must assemble")
+	if err != nil {
+		return
+	}
+	nr := sym.U32("nr")
+	var args [6]uint64
+	ret, ok := evalSeccompBPF(f, nr, auditArchX86_64, 0, args)
+	sym.Assert(ok, "filter evaluation failed")
+	for i := 0; i < n; i++ {
+		if nr == nums[i] {
+			if i < split2 {
+				sym.Reach("second-allow")
+				sym.Assert(ret == retAllow, "second filter must ALLOW its own allow list (not an earlier policy's)")
+			} else {
+				sym.Reach("second-trace")
+				sym.Assert(ret&retActionFull == retTrace, "second filter must TRACE its own trace list (not an earlier policy's)")
+			}
+			return
+		}
+	}
+}
